@@ -1,8 +1,7 @@
-import inspect
 from typing import SupportsInt
 
 from opensquirrel.circuit import Circuit
-from opensquirrel.ir import Bit, Comment, Float, Gate, Int, IRVisitor, Measure, Qubit, QubitLike, Reset
+from opensquirrel.ir import Bit, Comment, Float, Gate, Int, IRVisitor, Measure, Qubit, Reset
 from opensquirrel.register_manager import RegisterManager
 
 
@@ -58,10 +57,6 @@ class _WriterImpl(IRVisitor):
 
     def visit_gate(self, gate: Gate) -> None:
         gate_name = gate.name
-        gate_generator = []
-        if gate.generator is not None:
-            gate_generator = list(inspect.signature(gate.generator).parameters.keys())
-        qubit_function_keys = ["target", "control", "q"]
         if gate.is_anonymous:
             if "MatrixGate" in gate_name:
                 # In the case of a MatrixGate the newlines should be removed from the array
@@ -70,16 +65,11 @@ class _WriterImpl(IRVisitor):
             self.output += f"{gate_name}\n"
             return
 
-        params = []
-        qubit_args = []
-        if gate.arguments is not None:
-            for arg in gate.arguments:
-                pos = gate.arguments.index(arg)
-                if gate_generator[pos] not in qubit_function_keys:
-                    params.append(arg.accept(self))
-                    gate_name += f"({', '.join(params)})"
-                elif gate_generator[pos] in qubit_function_keys and isinstance(arg, QubitLike.__args__):  # type: ignore
-                    qubit_args.append(Qubit(arg).accept(self))
+        # Qubit arguments are operands, all other arguments are parameters, whatever the generator calls them.
+        params = [arg.accept(self) for arg in gate.arguments if not isinstance(arg, Qubit)]  # type: ignore[union-attr]
+        qubit_args = [arg.accept(self) for arg in gate.arguments if isinstance(arg, Qubit)]  # type: ignore[union-attr]
+        if params:
+            gate_name += f"({', '.join(params)})"
 
         self.output += f"{gate_name} {', '.join(qubit_args)}\n"
 
